@@ -13,6 +13,7 @@ import threading
 import numpy as np
 
 from ..common import execute_cases, qs
+from ..lib_callenv import lay, callenv, bits
 
 S = 10**6
 S4 = 10**4
@@ -57,7 +58,7 @@ def _callables(case):
         thr = np.array(case["t"], dtype=np.float64).T / case["q"] * 10.0 ** case["sc"]       # n x nc
         if case["ndim"] == 1:
             thr = thr[:, 0]
-        return {"direct": lambda a: P.soft_thresholding(a, thr.copy())}
+        return {"direct": lambda a: P.soft_thresholding(a, lay(thr, case.get("layout", "C")))}
     par = _param(case)
     fn, kw = DIRECT[op]
     runs = {}
@@ -91,31 +92,49 @@ def execute_vec(case):
     cols = case["cols"]
     nc, n = len(cols), len(cols[0])
     scale = 10.0 ** sc
+    layout, err, mshape = case.get("layout", "C"), case.get("err", "default"), case.get("mshape", [])
     base = np.array(cols, dtype=np.float64).T * scale          # n x nc
-    if case["ndim"] == 1:
+    if mshape:
+        base = base[:, 0].reshape(mshape)                      # whole-tensor operator on a matrix: row-major reshape of the vector
+    elif case["ndim"] == 1:
         base = base[:, 0]
     unscale = 1.0 if LAW[op] == "inv" else scale
+
+    def proj(out):
+        if mshape:
+            o = np.asarray(out, dtype=np.float64)
+            if o.shape != tuple(mshape):
+                return int(o.size) if o.size != n * nc else -1, [], []
+            out = o.reshape(-1)                                 # row-major flattening
+        return _project(out, n, nc, unscale)
+
     runs = {}
     for name, f in _callables(case).items():
         try:
-            out = f(base.copy())
-            size, oc, oc4 = _project(out, n, nc, unscale)
+            arg = lay(base, layout)
+            before = bits(arg)
+            with callenv(err):
+                out = f(arg)
+            mutated = bits(arg) != before
+            size, oc, oc4 = proj(out)
             again, again_raised = [], False
             if size == n * nc and op in ("nonneg", "simplex", "l1ball", "mono", "unimodal", "hard", "normsparse", "normalize"):
                 o = np.asarray(out, dtype=np.float64)
                 if np.all(np.isfinite(o)):
                     o2 = o.reshape(base.shape) if o.shape != base.shape else o
                     try:
-                        _, again, _ = _project(f(o2.copy()), n, nc, unscale)
+                        with callenv(err):
+                            _, again, _ = proj(f(lay(o2, layout)))
                     except Exception:            # the operator rejects its own output
                         again, again_raised = [], True
             runs[name] = {"raised": False, "exc": "", "size": size, "out": oc, "out4": oc4, "again": again,
-                          "again_raised": again_raised}
+                          "again_raised": again_raised, "mutated": bool(mutated)}
         except Exception as ex:
             runs[name] = {"raised": True, "exc": type(ex).__name__, "size": 0, "out": [], "out4": [], "again": [],
-                          "again_raised": False}
+                          "again_raised": False, "mutated": False}
     return {"id": case["id"], "kind": "vec", "op": op, "p": case["p"], "q": case["q"], "k": case["k"], "dec": case["dec"],
-            "sc": sc, "cols": cols, "t": case.get("t", []), "ndim": case["ndim"], "runs": runs}
+            "sc": sc, "cols": cols, "t": case.get("t", []), "ndim": case["ndim"], "layout": layout, "err": err, "mshape": mshape,
+            "runs": runs}
 
 
 def mat_of(case):
@@ -135,12 +154,17 @@ def execute_mat(case):
     from tensorly.tenalg import proximal as P
     M = mat_of(case)
     m, n = M.shape
-    run = {"raised": False, "exc": "", "size": 0, "out": [], "again": [], "again_raised": False, "orth": 0, "ip": 0}
+    run = {"raised": False, "exc": "", "size": 0, "out": [], "again": [], "again_raised": False, "orth": 0, "ip": 0, "mutated": False}
+    layout, err = case.get("layout", "C"), case.get("err", "default")
     try:
-        if case["op"] == "svt":
-            out = P.svd_thresholding(M.copy(), case["p"] / case["q"])
-        else:
-            out = P.procrustes(M.copy())
+        arg = lay(M, layout)
+        before = bits(arg)
+        with callenv(err):
+            if case["op"] == "svt":
+                out = P.svd_thresholding(arg, case["p"] / case["q"])
+            else:
+                out = P.procrustes(arg)
+        run["mutated"] = bool(bits(arg) != before)
         out = np.asarray(out, dtype=np.float64)
         run["size"] = int(out.size)
         if out.shape == (m, n):
@@ -159,7 +183,8 @@ def execute_mat(case):
     except Exception as ex:
         run.update(raised=True, exc=type(ex).__name__)
     return {"id": case["id"], "kind": "mat", "op": case["op"], "p": case["p"], "q": case["q"], "m": m, "n": n,
-            "uf": case["uf"], "vf": case["vf"], "c": case["c"], "M": [[int(x) for x in row] for row in M], "runs": {"direct": run}}
+            "uf": case["uf"], "vf": case["vf"], "c": case["c"], "M": [[int(x) for x in row] for row in M], "layout": layout, "err": err,
+            "runs": {"direct": run}}
 
 
 def execute(case):
@@ -241,6 +266,44 @@ def build_cases(chk, cfgs, thorough):
             for c in (cs if (thorough and abs(sc) == 3) else rng.sample(cs, min(len(cs), (40 if abs(sc) == 3 else 15) * n))):
                 add("vec", "l1arr", dict(p=0, q=c["q"], k=0, dec=False, sc=sc, cols=[list(c["v"])], t=[list(c["t"])], ndim=1,
                                          flags={"allneg": False, "hasneg": True}))
+    # call environments: the same values in other memory layouts, and under other caller-side error / warning settings
+    n_before_env = len(cases)
+    for (key, n), vs in sorted(byfam.items()):
+        op, p, q_, k, dec = key
+        columnwise, _ = fam_meta[key]
+        special = [v for v in vs if not any(v)] + [v for v in vs if all(x < 0 for x in v)][:1]
+        picks = special + rng.sample(vs, min(len(vs), 6 if thorough else 3))
+        for t, v in enumerate(picks):
+            for err in ("ignore", "raise", "warnerr"):
+                add("vec", op, dict(p=p, q=q_, k=k, dec=dec, sc=0, cols=[v], ndim=1, layout="C", err=err, flags=_flags(op, [v], p, q_)))
+            for layout in ("strided", "readonly"):
+                add("vec", op, dict(p=p, q=q_, k=k, dec=dec, sc=0, cols=[v], ndim=1, layout=layout, err=("default", "ignore")[t % 2],
+                                    flags=_flags(op, [v], p, q_)))
+        if columnwise and n >= 2:
+            for layout in ("F", "strided", "readonly"):
+                for t in range(4 if thorough else 2):
+                    cols = [rng.choice(vs) for _ in range(2 + t % 2)]
+                    add("vec", op, dict(p=p, q=q_, k=k, dec=dec, sc=0, cols=cols, ndim=2, layout=layout, err=("default", "raise")[t % 2],
+                                        flags=_flags(op, cols, p, q_)))
+        if op in ("l2", "hard", "normsparse", "normalize") and n == 4:
+            # whole-tensor operators on a 2 x 2 matrix (row-major reshape of the 4-vector), every layout
+            for v in special + rng.sample(vs, min(len(vs), 60 if thorough else 14)):
+                for t, layout in enumerate(("C", "F", "strided", "readonly")):
+                    add("vec", op, dict(p=p, q=q_, k=k, dec=dec, sc=0, cols=[v], ndim=2, mshape=[2, 2], layout=layout,
+                                        err=("default", "ignore", "default", "warnerr")[t], flags=_flags(op, [v], p, q_)))
+    for n, cs in sorted(by_n.items()):
+        if n >= 2:
+            for layout in ("F", "strided", "readonly"):
+                for t in range(6):
+                    pick = [rng.choice(cs) for _ in range(2 + t % 2)]
+                    add("vec", "l1arr", dict(p=0, q=pick[0]["q"], k=0, dec=False, sc=0, cols=[list(c["v"]) for c in pick],
+                                             t=[list(c["t"]) for c in pick], ndim=2, layout=layout, err=("default", "ignore", "raise")[t % 3],
+                                             flags={"allneg": False, "hasneg": True}))
+    for t, c in enumerate(mats):
+        if t % (3 if thorough else 9) == 0:
+            add("mat", c["op"], dict(p=c["p"], q=c["q"], m=c["m"], n=c["n"], uf=[list(u) for u in c["uf"]], vf=[list(u) for u in c["vf"]],
+                                     c=list(c["c"]), layout=("F", "strided", "readonly")[(t // 9) % 3], err=("default", "ignore", "raise", "warnerr")[(t // 9) % 4]))
+    n_env = len(cases) - n_before_env
     for c in mats:
         add("mat", c["op"], dict(p=c["p"], q=c["q"], m=c["m"], n=c["n"], uf=[list(u) for u in c["uf"]],
                                  vf=[list(u) for u in c["vf"]], c=list(c["c"])))
@@ -284,7 +347,9 @@ def run(chk, opts):
         "NumPy backend only",
         "exact domain: vectors in {-2..2}^n (n<=4) with rational parameters; scaled variants rely on the spec's homogeneity theorem (checked for c=2,3)",
         "l2 block / normalised sparsity on inputs with irrational norm are judged at 1e-4 (IrrTol) instead of 1e-6",
-        "whole-tensor operators (l2 block, hard/normalised sparsity, max-normalisation) are exercised on single columns only",
+        "whole-tensor operators (l2 block, hard/normalised sparsity, max-normalisation) are exercised on single columns and on 2 x 2 matrices under the flattened-tensor semantics of their docstrings (the guide's 'column-wise' wording for hard sparsity is not what the function documents)",
+        "call environments: C / Fortran / strided / read-only inputs, np.errstate(all=ignore|raise) and warnings-as-errors of the caller; the input must be bit-identical after the call",
+        "zero input of normalised sparsity / max-normalisation: any point of the constraint set is accepted",
         "smoothness penalty read as (r/2)*sum of squared finite differences of the zero-extended column (matches the repo's own reference values)",
         "the keyword dispatch of 'monotonicity' may return either monotone projection (docstrings say decreasing, code does increasing)",
     ]
